@@ -87,7 +87,7 @@ func runC16(cfg *vh.Config) error {
 	var pks []pk
 	var jobs []*Job
 	for i := 0; i < nPkg+nAwk; i++ {
-		if i >= 5 && i < 9 {
+		if i >= 5 && i < 10 {
 			forcedClash = i - 5 // one package of each known-finding class in every run
 		}
 		p := genPackage(rp, i >= nPkg)
@@ -326,7 +326,7 @@ func runC16(cfg *vh.Config) error {
 	}
 	// compile stream: its own shards
 	cc := &vh.CasesFile{
-		Header: "From Coq Require Import String List NArith.\nFrom J5V.lib Require Import Outcome.\nFrom J5V.model Require Import Pipeline PipelineCompile PipelineValid PipelineCompileCorr.",
+		Header: "From Coq Require Import String List NArith.\nFrom J5V.lib Require Import Outcome.\nFrom J5V.model Require J5sWalk.\nFrom J5V.model Require Import Pipeline PipelineCompile PipelineValid PipelineCompileCorr.",
 		Type:   "c16compile",
 		Check:  "c16_compile_check",
 	}
